@@ -176,7 +176,8 @@ func runSCIONServer(ctx context.Context, log *slog.Logger, mtrcs *scionServerMet
 			scionLayer.RawDstAddr, scionLayer.RawSrcAddr = scionLayer.RawSrcAddr, scionLayer.RawDstAddr
 			scionLayer.Path, err = scionLayer.Path.Reverse()
 			if err != nil {
-				panic(err)
+				log.LogAttrs(ctx, slog.LevelInfo, "failed to reverse path", slog.Any("error", err))
+				continue
 			}
 			scionLayer.NextHdr = slayers.L4SCMP
 
@@ -457,7 +458,8 @@ func runSCIONServer(ctx context.Context, log *slog.Logger, mtrcs *scionServerMet
 			scionLayer.RawDstAddr, scionLayer.RawSrcAddr = scionLayer.RawSrcAddr, scionLayer.RawDstAddr
 			scionLayer.Path, err = scionLayer.Path.Reverse()
 			if err != nil {
-				panic(err)
+				log.LogAttrs(ctx, slog.LevelInfo, "failed to reverse path", slog.Any("error", err))
+				continue
 			}
 			scionLayer.NextHdr = slayers.L4UDP
 
